@@ -137,7 +137,11 @@ def gen_scenario(rng, allow_defects=True):
             by.append({"id": j, "cls": rng.choice(BY_CLASSES), "kind": rng.choice(["f", "f", "boom"]),
                        "blocking": rng.random() < 0.6})
         scn["by"] = by
-    if rng.random() < 0.3:
+    if scn["fault"] in ("none", "disc", "stopA") and rng.random() < 0.35:
+        # a client that connects only AFTER the fault (e.g. after client cli left with a call still in flight) and
+        # issues a burst of un-waited calls: it may inherit routing state of the client that left
+        scn["late"] = {"n": rng.choice([3, 6, 12]), "kind": rng.choice(["f", "f", "boom"])}
+    if rng.random() < 0.3 or ("late" in scn and rng.random() < 0.6):
         # a caller that gives up (rpc_timeout) while its request is still being served: leaves a stale entry in the
         # pending table / a reply nobody waits for; the fault is injected before, between or after (virtual time)
         scn["noise"] = {"dur": 5.0, "timeout": 1.0, "delay": rng.choice([0.0, 2.0, 2.0, 2.0, 7.0])}
@@ -215,6 +219,7 @@ def run_real(scn, seed, policy="weighted", change_points=None, probe_after=True)
     futs = {}
     bfuts = {}
     nres = []
+    lres = []
     problems = []
     double_sets = []
 
@@ -360,6 +365,17 @@ def run_real(scn, seed, policy="weighted", change_points=None, probe_after=True)
             cli.stop()
         elif f == "disc":
             cli.disconnect_from_peer("srv")
+        late = scn.get("late")
+        if late:
+            cli3 = w.context("cli3")
+            w.connect(cli3, srv)
+            p3 = cli3.get_rpc_object_by_name("srv.o")
+            lf = []
+            for j in range(late["n"]):
+                c3 = {"id": 300 + j, "kind": late["kind"], "place": "rem", "blocking": False}
+                lf.append((c3, do_call(p3, c3)))
+            for c3, fut in lf:
+                lres.append(classify(c3, lambda fut=fut: fut.wait(60.0)))
         for t in threads:
             t.join()
         for t in threads:
@@ -404,9 +420,70 @@ def run_real(scn, seed, policy="weighted", change_points=None, probe_after=True)
     return {"vec": "".join(v if len(v) == 1 else "x" for v in vec), "raw": list(vec), "deadlock": out.deadlock,
             "bvec": "".join(v if len(v) == 1 else "x" for v in bvec), "braw": list(bvec),
             "noise": (nres[0] if nres else "-") if scn.get("noise") else None,
+            "late": list(lres) if scn.get("late") else None,
             "problems": problems, "steps": out.sched.steps if out.sched else 0,
             "loop_exc": [type(e).__name__ for e in (out.net.loop_exceptions if out.net else [])],
             "thread_errors": [f"{n}:{type(e).__name__}" for n, e in out.thread_errors]}
+
+
+def live_bounds():
+    """every finite bound a request passes on its way to the worker, read from the live code: `maxlen` of the worker's
+    queue of a freshly made object and every small MAX_* / *_MAX / *LIMIT* integer of rpc.py (module and classes)"""
+    import collections
+    import qmi.core.rpc as R
+    from qmi.core.context import QMI_Context
+    bounds = {}
+    for owner in [R] + [v for v in vars(R).values() if isinstance(v, type) and v.__module__ == R.__name__]:
+        for k, v in vars(owner).items():
+            if isinstance(v, int) and not isinstance(v, bool) and any(t in k.upper() for t in ("MAX", "LIMIT", "PENDING", "QUEUE")) \
+                    and 0 < v <= 200000:
+                bounds[f"{getattr(owner, '__name__', 'rpc')}.{k}"] = v
+    ctx = QMI_Context("c01bounds")
+    ctx.start()
+    try:
+        ctx.make_rpc_object("o", _probe_class())
+        mgr = ctx._rpc_object_map.get("o")
+        for holder in (mgr, getattr(mgr, "_rpc_thread", None)):
+            for k, v in (vars(holder).items() if holder is not None else []):
+                if isinstance(v, collections.deque) and v.maxlen is not None:
+                    bounds[f"{type(holder).__name__}.{k}.maxlen"] = v.maxlen
+    finally:
+        ctx.stop()
+    return bounds
+
+
+def run_burst(n, seed, place="loc"):
+    """n un-waited calls behind a worker that is busy: every one of them must get its own outcome"""
+    from harness.simworld import run_scenario
+    from harness import detsched as D
+    got = {}
+    info = {}
+
+    def body(w):
+        srv = w.context("srv", server=True)
+        srv.make_rpc_object("o", _probe_class())
+        if place == "loc":
+            p = srv.get_rpc_object_by_name("srv.o")
+        else:
+            cli = w.context("cli")
+            w.connect(cli, srv)
+            p = cli.get_rpc_object_by_name("srv.o")
+        hold = p.rpc_nonblocking.slow(-1, 5.0)
+        futs = [p.rpc_nonblocking.f(i) for i in range(n)]
+        info["issued"] = len(futs)
+        got[-1] = hold.wait(120.0)
+        for i, fut in enumerate(futs):
+            try:
+                got[i] = fut.wait(120.0)
+            except D.SchedAbort:
+                raise
+            except BaseException as e:  # noqa
+                got[i] = f"x:{type(e).__name__}"
+        return True
+
+    out = run_scenario(seed, body, policy="weighted", max_steps=4000000)
+    bad = [(i, got.get(i, "-")) for i in range(n) if got.get(i, "-") != ("f", i * 2)]
+    return bad, out
 
 
 def normalise(scn):
@@ -445,13 +522,30 @@ def oracle(scn, r):
                 and not (ACTIVE_DEFECTS & set(feats)):
             out.append(("bystander-affected:" + b["cls"], f"call {b} to another object / over another connection than the one hit by "
                                                            f"fault {scn['fault']} ended with {v}, expected {bnat[b['kind']]}"))
+    if r.get("late") is not None:
+        lt = scn["late"]
+        exp = "l" if scn["prelocked"] else bnat[lt["kind"]]
+        if len(r["late"]) < lt["n"]:
+            out.append(("call-waits-forever:late-client", f"a client that connected after fault {scn['fault']} got outcomes for only "
+                                                          f"{len(r['late'])} of its {lt['n']} calls; scheduler: {str(r['deadlock'])[:120]}"))
+        for v in r["late"]:
+            if v.startswith("crosstalk"):
+                out.append(("other-call's-outcome", f"a call of a client that connected after fault {scn['fault']} received {v}"))
+                break
+            if v.startswith("x:"):
+                out.append((f"unexpected-outcome:{v[2:].split('(')[0]}", f"late client: outcome {v}"))
+                break
+            if v != exp and not (ACTIVE_DEFECTS & set(feats)):
+                out.append(("bystander-affected:late-client", f"a call of a client that connected after fault {scn['fault']} ended with {v}, expected {exp}"))
+                break
     nz = r.get("noise")
     if nz is not None:
         if nz == "-":
             out.append(("call-waits-forever:gave-up-caller", f"the call with rpc_timeout has no outcome; scheduler: {str(r['deadlock'])[:120]}"))
         elif nz.startswith(("x:", "crosstalk")):
             out.append((f"unexpected-outcome:{nz[2:].split('(')[0]}", f"call with rpc_timeout: outcome {nz}"))
-    if "-" in r["vec"] or (r["deadlock"] and "-" not in r.get("bvec", "") and nz != "-"):
+    late_short = r.get("late") is not None and len(r["late"]) < scn["late"]["n"]
+    if "-" in r["vec"] or (r["deadlock"] and "-" not in r.get("bvec", "") and nz != "-" and not late_short):
         # attribute every hanging call to a cause; one finding per distinct cause
         crashed = any("_RpcThread" in t for t in r["thread_errors"])
         has_funlock = "lock-handler-crash" in feats
@@ -689,7 +783,33 @@ class C01(Prop):
                                      "the model has one bit for both"))
         self._campaign(ctx, res, ctx.scale(110, 2500), ctx.scale(6, 12), cfgbits)
         self._sweeps(ctx, res, cfgbits)
+        self._bursts(ctx, res)
         return res
+
+    def _bursts(self, ctx: Ctx, res: Result):
+        """queue-depth boundaries: more un-waited calls than any finite bound declared in the live code (or a fixed large
+        burst when none is declared) behind a busy worker; every call must get its own outcome"""
+        try:
+            bounds = live_bounds()
+        except Exception as e:  # noqa
+            res.broken.append(Broken("harness", "C01.live_bounds", repr(e)[:200]))
+            bounds = {}
+        res.extra["live_queue_bounds"] = bounds or "none declared (worker queue unbounded)"
+        sizes = sorted({b + 3 for b in bounds.values()} | ({1500} if not bounds else set()))
+        if not ctx.quick:
+            sizes = sorted(set(sizes) | {12000})
+        for n in sizes:
+            for place in (("loc", "rem") if n <= 3000 else ("loc",)):
+                bad, out = run_burst(n, f"burst:{ctx.seed}:{n}", place)
+                res.note_case(("burst", n, place))
+                res.count("burst_calls", n)
+                if bad or out.deadlock or out.error is not None:
+                    i, v = bad[0] if bad else (-1, "?")
+                    res.failures.append(Failure(
+                        "call-waits-forever:queue-overflow" if (not bad or str(v) in ("-", "x:QMI_RpcTimeoutException")) else "other-call's-outcome",
+                        f"burst of {n} un-waited {place} calls behind a busy worker: {len(bad)} calls without their own outcome, first: call {i} -> {v!r}"
+                        f" (live bounds {bounds}); scheduler: {str(out.deadlock)[:100]} {str(out.error)[:100]}",
+                        {"burst": n, "place": place, "seed": f"burst:{ctx.seed}:{n}"}))
 
     def _sweeps(self, ctx: Ctx, res: Result, cfgbits: str):
         """The fault at *every* point relative to the call: PCT with one change point k, for all k."""
@@ -753,6 +873,11 @@ class C01(Prop):
         return res
 
     def replay(self, ctx: Ctx, rp: dict):
+        if "burst" in rp:
+            bad, out = run_burst(rp["burst"], rp["seed"], rp.get("place", "loc"))
+            if bad or out.deadlock or out.error is not None:
+                return Failure("call-waits-forever:queue-overflow", f"burst of {rp['burst']}: {len(bad)} calls without their own outcome", rp)
+            return None
         _probe_and_set()
         r = run_real(rp["scn"], rp["seed"], policy=rp.get("policy", "weighted"), change_points=rp.get("change_points"))
         fs = oracle(rp["scn"], r)
